@@ -49,6 +49,16 @@ def structures(tier):
     for first in (['RealFaultAddressInternal'], ['RealFaultAddressExternal'], []):
         for second in (['RealFaultAddressInternal'], []):
             sts.append({'kind': 'vmfault2', 'first': first, 'second': second})
+    # the same windows with the parser tables in an arbitrary pre-state: what a composite trace shows comes from its window
+    for s in [[]] + [[a] for a in RF]:
+        sts.append({'kind': 'vmfault', 'nested': s, 'noise': False, 'ft': None, 'pre': True})
+    sts.append({'kind': 'vmfault2', 'first': [], 'second': ['RealFaultAddressInternal'], 'pre': True})
+    sts.append({'kind': 'vmfault2', 'first': ['RealFaultAddressInternal'], 'second': [], 'pre': True})
+    for ks in ([], ['DYLD_uuid_map_a'], ['DYLD_uuid_shared_cache_a', 'DYLD_uuid_map_a']):
+        sts.append({'kind': 'launch', 'nested': ks, 'noise': False, 'pre': True})
+    for hdr in (False, True):
+        sts.append({'kind': 'sampler', 'thd': True, 'hdr': hdr, 'nd': 1, 'pre': True})
+        sts.append({'kind': 'sampler', 'thd': False, 'hdr': hdr, 'nd': 1, 'pre': True})
     kinds = ['DYLD_uuid_map_a', 'DYLD_uuid_shared_cache_a']
     for n in range(0, 4 if tier == 'thorough' else 3):
         for ks in itertools.product(kinds, repeat=n):
@@ -77,8 +87,20 @@ def _parser(ctx):
     return p
 
 
-def _feed(ctx, evs, first):
-    p = _parser(ctx)
+def _feed(ctx, evs, first, pre=False):
+    """pre: the four parser tables start in an arbitrary state (HavocMap) instead of empty"""
+    if pre:
+        tabs = sweep.havoc_tables(ctx)
+        p = sweep.parser_on(tabs)
+        if not ctx.symbolic:
+            try:
+                for t in p.feed_generator(iter(evs)):
+                    str(t)
+            except Exception:       # noqa
+                pass
+            p = sweep.parser_on({n: dict(t.initial) for n, t in tabs.items()})
+    else:
+        p = _parser(ctx)
     out = []
     try:
         for t in p.feed_generator(iter(evs)):
@@ -133,7 +155,7 @@ def run_vmfault2(ctx, st):
         add(k, 0, w)
         n2.append(w)
     add('MACH_vmfault', 2, r2)
-    t, out, err = _feed(ctx, evs, start2)
+    t, out, err = _feed(ctx, evs, start2, st.get('pre', False))
     L = 'C20/vmfault-history'
     if err == 'ood':
         ctx.reach('ood'); ctx.reach(); return
@@ -185,7 +207,7 @@ def run_vmfault(ctx, st):
     if st['noise']:
         evs.append(_noise(ts)); ts += 1
     evs.append(sweep.make_event(ts, r, TID, by_name['MACH_vmfault'] | 2))
-    t, out, err = _feed(ctx, evs, start)
+    t, out, err = _feed(ctx, evs, start, st.get('pre', False))
     if err == 'ood':
         ctx.reach('ood'); ctx.reach(); return
     L = 'C20/vmfault'
@@ -232,7 +254,7 @@ def run_launch(ctx, st):
         evs.append(ev)
         nested.append((ev, addr))
     evs.append(sweep.make_event(ts + 1, [0, 0, 0, 0], TID, lid | 2))
-    t, out, err = _feed(ctx, evs, start)
+    t, out, err = _feed(ctx, evs, start, st.get('pre', False))
     L = 'C20/launch'
     if err is not None or t is None:
         ctx.check(L + '/trace', False, repr(err)); ctx.reach(); return
@@ -272,7 +294,7 @@ def run_sampler(ctx, st):
         words += w
         evs.append(sweep.make_event(ts, w, TID, by_name['PERF_STK_UData'])); ts += 1
     evs.append(sweep.make_event(ts, [flags, 0, 0, 0], TID, pe | 2))
-    t, out, err = _feed(ctx, evs, start)
+    t, out, err = _feed(ctx, evs, start, st.get('pre', False))
     L = 'C20/sampler'
     if err is not None or t is None:
         ctx.check(L + '/trace', False, repr(err)); ctx.reach(); return
